@@ -1108,7 +1108,9 @@ def rule_nonempty(env, shared):
                         from guards import local_cases, class_facts
                         somes = [c for c in (local_cases(ev, u.ctx, 0, True) or []) if c[0] == "Some"]
                         if somes:
-                            cf_ = [tuple(m.canon(x) if isinstance(x, tuple) else x for x in f) for f in class_facts(somes, "Some")]
+                            from guards import derive_satsub
+                            cf_ = derive_satsub([tuple(m.canon(x) if isinstance(x, tuple) else x for x in f)
+                                                 for f in class_facts(somes, "Some")])
                             extra = []
                             for f in cf_:
                                 # 0 < E - B (the length of the view that is handed out) says B < E
